@@ -288,6 +288,8 @@ def part(R):
     ok, test_exe, runner = prepare(R, "C04_face")
     if not ok:
         return
+    if not R.quick:
+        R.coqchk("Face", ["Face.StreamProofs", "Face.LpTotal"])
     n = 64 if R.quick else 1600
     res = stream_trace(R, test_exe, runner, "adv", n, 0, [os.path.join(vlib.VERIF, "corpus", "C04_face")], "adv")
     if res:
